@@ -203,6 +203,91 @@ const MULTI_B: [(&str, &[&str], bool); 7] = [
     ("mercury diameter / 2 to m", &["mercury diameter"], false),
 ];
 
+/// Command-line family: phrases whose constants have a recorded source and phrases whose
+/// constants have none (the describe block prints the source), as (phrase, stored description).
+fn cli_pool() -> &'static Vec<(String, String, bool)> {
+    static POOL: std::sync::OnceLock<Vec<(String, String, bool)>> = std::sync::OnceLock::new();
+    POOL.get_or_init(|| {
+        let all = crate::refdb::constants();
+        let mut with: Vec<(String, String, bool)> = Vec::new();
+        let mut without: Vec<(String, String, bool)> = Vec::new();
+        let mut sorted: Vec<&crate::refdb::RefConstant> = all.iter().collect();
+        sorted.sort_by(|a, b| a.tokens.cmp(&b.tokens));
+        for c in sorted {
+            if c.tokens.len() < 2 || c.tokens.len() > 3 || !crate::props::c16::typeable_phrase(&c.tokens) {
+                continue;
+            }
+            // the full word set must not be contained in another constant's (unique best match)
+            if all.iter().filter(|o| c.tokens.iter().all(|t| o.tokens.contains(t))).count() != 1 {
+                continue;
+            }
+            let Some(d) = c.description.clone() else { continue };
+            let e = (c.tokens.join(" "), d, c.source.is_some());
+            if c.source.is_some() {
+                if with.len() < 4 {
+                    with.push(e);
+                }
+            } else if without.len() < 4 {
+                without.push(e);
+            }
+        }
+        with.extend(without);
+        with
+    })
+}
+
+/// Runs the real binary; returns stdout lines.
+fn run_cli(q: &str, describe: bool) -> Result<Vec<String>, String> {
+    let bin = crate::props::c19::any_bin();
+    if !bin.exists() {
+        panic!("machinery: {} missing (the check script builds it)", bin.display());
+    }
+    let mut cmd = std::process::Command::new(&bin);
+    if describe {
+        cmd.arg("--describe");
+    }
+    cmd.arg("--").arg(q).env_remove("RUST_LOG").env("NO_COLOR", "1");
+    let out = cmd.output().unwrap_or_else(|e| panic!("machinery: cannot run {}: {e}", bin.display()));
+    use std::os::unix::process::ExitStatusExt;
+    if let Some(sg) = out.status.signal() {
+        return Err(format!("killed by signal {sg}"));
+    }
+    let stderr = String::from_utf8_lossy(&out.stderr);
+    if out.status.code() == Some(101) || stderr.contains("panicked at") {
+        return Err(format!("panicked: {}", stderr.lines().take(2).collect::<Vec<_>>().join(" | ")));
+    }
+    Ok(String::from_utf8_lossy(&out.stdout).lines().map(|l| l.to_string()).collect())
+}
+
+/// The describe block of a query: what `--describe` prints beyond the plain output.
+fn cli_block(q: &str) -> Result<Vec<String>, String> {
+    let plain = run_cli(q, false)?;
+    let desc = run_cli(q, true)?;
+    if desc.len() < plain.len() || desc[..plain.len()] != plain[..] {
+        return Err(format!("`any --describe -- {q:?}` does not start with the output of `any -- {q:?}`: {desc:?} vs {plain:?}"));
+    }
+    Ok(desc[plain.len()..].to_vec())
+}
+
+/// Per worker: the block header (lines common to every single-phrase block) and each pool
+/// phrase's own description lines when asked alone.
+fn cli_singles() -> &'static Result<(Vec<String>, Vec<Vec<String>>), String> {
+    static S: std::sync::OnceLock<Result<(Vec<String>, Vec<Vec<String>>), String>> = std::sync::OnceLock::new();
+    S.get_or_init(|| {
+        let pool = cli_pool();
+        let mut blocks = Vec::new();
+        for (p, _, _) in pool {
+            blocks.push(cli_block(p)?);
+        }
+        let mut h = 0usize;
+        while blocks.iter().all(|b| b.len() > h) && blocks.iter().all(|b| b[h] == blocks[0][h]) {
+            h += 1;
+        }
+        let header = blocks[0][..h].to_vec();
+        Ok((header, blocks.into_iter().map(|b| b[h..].to_vec()).collect()))
+    })
+}
+
 const PHRASES: [&str; 4] = ["mercury mass", "earth mass", "mercury diameter", "population finland"];
 const LITS: [&str; 2] = ["2", "0.5"];
 
@@ -266,7 +351,7 @@ impl Prop for C18 {
         false
     }
     fn rule(&self) -> String {
-        "histories: all sequences of length <=3 (thorough <=4) over 18 operations (9 queries: literal-only, one fact, two facts, facts inside a function call, an error after a lookup, a cast of a fact, a single word carried by several constants, the full word set of one of those, a three-result query whose middle expression fails after a lookup; each with descriptions off/on; a history is judged only if each of its operations answers identically on two independent fresh databases), each history executed on one shared Db instance that also served all earlier histories of the worker; after every step the operation's observation (values, error text+range, descriptions) must equal its observation on a fresh Db, and describe on/off must give the same values. pairing: every distinct single word of the data set as a phrase (the described constant's value and unit must be the result). near-collision histories: sequences of length <=3 over up to 16 full word sets of shipped constants that share word prefixes of >=5 characters (mauritius/mauritania...), each answer compared with the independently decoded constant. lookup-free histories: all sequences of length <=3 over 20 unit / number / function queries that would collide in plausible caches (one unit word under several prefixes and powers, one function with different arguments, one mantissa with different exponents), each step compared with a hand-written exact expectation. multi-result queries: (A) (B), (B) (A), (A) (B) (A') over 5+5 expressions with disjoint phrase sets (values, failing after a lookup, failing without one): the phrases of every computed result must be reported, in order, whatever fails before or after it. expressions: all trees with <=3 operands over {2, 0.5, 4 fact phrases} x {+ - * /} with explicit grouping; value with describe = value without = reference evaluation with the described constants substituted; descriptions = the phrases as written, one per phrase occurrence, in the evaluation order inferred from the two-phrase expressions. Non-trivial = the history/expression contains at least one fact lookup; distinct = distinct histories/expressions".into()
+        "histories: all sequences of length <=3 (thorough <=4) over 18 operations (9 queries: literal-only, one fact, two facts, facts inside a function call, an error after a lookup, a cast of a fact, a single word carried by several constants, the full word set of one of those, a three-result query whose middle expression fails after a lookup; each with descriptions off/on; a history is judged only if each of its operations answers identically on two independent fresh databases), each history executed on one shared Db instance that also served all earlier histories of the worker; after every step the operation's observation (values, error text+range, descriptions) must equal its observation on a fresh Db, and describe on/off must give the same values. pairing: every distinct single word of the data set as a phrase (the described constant's value and unit must be the result). near-collision histories: sequences of length <=3 over up to 16 full word sets of shipped constants that share word prefixes of >=5 characters (mauritius/mauritania...), each answer compared with the independently decoded constant. lookup-free histories: all sequences of length <=3 over 20 unit / number / function queries that would collide in plausible caches (one unit word under several prefixes and powers, one function with different arguments, one mantissa with different exponents), each step compared with a hand-written exact expectation. multi-result queries: (A) (B), (B) (A), (A) (B) (A') over 5+5 expressions with disjoint phrase sets (values, failing after a lookup, failing without one): the phrases of every computed result must be reported, in order, whatever fails before or after it. command line: the real `any` binary with and without --describe over up to 8 phrases (4 whose constant records a source, 4 whose constant records none): the --describe output must begin with the plain output, a phrase alone must be described with its own words and the stored description text, and for every ordered pair and triple of phrases as separate results and every ordered pair as a product the describe block must be the header followed by each phrase's own single-phrase description lines in order (within a product: in either order). expressions: all trees with <=3 operands over {2, 0.5, 4 fact phrases} x {+ - * /} with explicit grouping; value with describe = value without = reference evaluation with the described constants substituted; descriptions = the phrases as written, one per phrase occurrence, in the evaluation order inferred from the two-phrase expressions. Non-trivial = the history/expression contains at least one fact lookup; distinct = distinct histories/expressions".into()
     }
     fn assumptions(&self) -> Vec<String> {
         vec![
@@ -340,6 +425,18 @@ impl Prop for C18 {
                 }
             }
         }
+        // the command-line program's describe block over sourced and sourceless constants
+        let n = cli_pool().len();
+        for a in 0..n {
+            sink(Case::new("cli", format!("S:{a}")));
+            for b in 0..n {
+                sink(Case::new("cli", format!("R:{a},{b}")));
+                sink(Case::new("cli", format!("M:{a},{b}")));
+                for c in 0..n {
+                    sink(Case::new("cli", format!("R:{a},{b},{c}")));
+                }
+            }
+        }
         // expressions; leaves are described by index: 0,1 literals; 2.. phrases
         let nleaf = LITS.len() + PHRASES.len();
         let ops = [Op::Add, Op::Sub, Op::Mul, Op::Div];
@@ -402,6 +499,50 @@ impl Prop for C18 {
             }
             env.bulk_evals += (ops.len() as u64) * (NOPS as u64 + 2);
             return fw::pass(ops.iter().any(|o| o / 2 != 0), fw::hash_str(&state_before));
+        }
+        if case.fam == "cli" {
+            let pool = cli_pool();
+            let (kind, rest) = case.key.split_once(':').unwrap();
+            let idx: Vec<usize> = rest.split(',').map(|x| x.parse().unwrap()).collect();
+            let (header, singles) = match cli_singles() {
+                Ok(x) => x,
+                Err(e) => return fw::fail("cli-single", format!("a single phrase through the binary: {e}")),
+            };
+            if kind == "S" {
+                // a phrase alone: exactly one description, naming the phrase and carrying the stored text
+                let (p, d, _) = &pool[idx[0]];
+                let own = &singles[idx[0]];
+                let joined = own.join("\n");
+                if own.is_empty() || !joined.contains(p.as_str()) || !joined.contains(d.as_str()) {
+                    return fw::fail("cli-single-content", format!("`any --describe -- {p:?}` describes the phrase as {own:?}; it should name the phrase and carry the stored description {d:?}"));
+                }
+                return fw::pass(true, fw::hash_str(&joined));
+            }
+            let q = match kind {
+                "R" => idx.iter().map(|i| format!("({})", pool[*i].0)).collect::<Vec<_>>().join(" "),
+                _ => format!("{} * {}", pool[idx[0]].0, pool[idx[1]].0),
+            };
+            let block = match cli_block(&q) {
+                Ok(b) => b,
+                Err(e) => return fw::fail("cli-values", e),
+            };
+            let mut want = header.clone();
+            for i in &idx {
+                want.extend(singles[*i].iter().cloned());
+            }
+            // within one product the order of evaluation is the tool's choice (pinned at library level by
+            // the expression family); the printing must keep whichever it is
+            let mut alt = header.clone();
+            for i in idx.iter().rev() {
+                alt.extend(singles[*i].iter().cloned());
+            }
+            if block != want && !(kind == "M" && block == alt) {
+                return fw::fail(
+                    format!("cli-describe-block:{kind}"),
+                    format!("`any --describe -- {q:?}` prints the describe block {block:?}; each phrase alone is described as {:?}, so the block should be {want:?}", idx.iter().map(|i| singles[*i].clone()).collect::<Vec<_>>()),
+                );
+            }
+            return fw::pass(true, fw::hash_str(&block.join("\n")));
         }
         if case.fam == "pairing" {
             let q = &case.key;
@@ -657,6 +798,7 @@ impl Prop for C18 {
             "multi_result_queries": 2 * MULTI_A.len() * MULTI_B.len() + MULTI_A.len() * MULTI_B.len() * MULTI_A.len(),
             "traces_validated_against_impl": histories,
             "expression_operands_max": 3,
+            "cli_phrases": cli_pool().iter().map(|(p, _, s)| format!("{p}{}", if *s { " (sourced)" } else { " (no source)" })).collect::<Vec<_>>(),
         })
     }
 }
